@@ -40,6 +40,10 @@ CAT = [
     ("entry", "h", "s", [("x", "s"), ("y", "t"), ("ID", "s")]),  # an entry whose citation key is the name of a string; a field called ID
     ("string", "jan", '"Janvier"'),  # a string named like one of BibTeX's month macros
     ("entry", "i", "k8", [("month", "jan"), ("note", "jan"), ("Month", "jan"), ("month2", "{jan}"), ("year", "dec")]),
+    # fields called ID / ENTRYTYPE (names Entry's item access answers with the citation key / the type) in entries whose
+    # key or type is the name of a string while the field's own value is something else
+    ("entry", "j", "t", [("ID", "{own}"), ("ENTRYTYPE", "s"), ("z", "u")]),
+    ("entry", "t", "k9", [("ENTRYTYPE", '"own"'), ("ID", "s"), ("id", "t")]),
     ("garbage", "@string{oops"),  # a definition that breaks off (a failed block): what follows is defined and resolved as ever
 ]
 
@@ -175,6 +179,7 @@ def check_two_parts(first, acc):
             defined_a = {CAT[i][1] for i in a if CAT[i][0] == "string"}
             defined_b = {CAT[i][1] for i in b if CAT[i][0] == "string"} - defined_a
             late = []
+            unrecorded = []
             for pos, i in enumerate(a):
                 c = CAT[i]
                 if c[0].startswith("entry") and pos < len(lib.blocks) and type(lib.blocks[pos]) is Entry and type(one.blocks[pos]) is Entry:
@@ -183,6 +188,16 @@ def check_two_parts(first, acc):
                             got_, exp_ = lib.blocks[pos].fields_dict[k].value, one.blocks[pos].fields_dict[k].value
                             if got_ != exp_:
                                 late.append((c[2], k, v, got_, exp_))
+                            elif [kk for kk, _ in c[3]].count(k) == 1 and k not in (lib.blocks[pos].parser_metadata.get("ResolveStringReferences") or []):
+                                # resolved by the second call: whatever else the record holds, it names this field
+                                unrecorded.append((c[2], k, lib.blocks[pos].parser_metadata.get("ResolveStringReferences")))
+            if unrecorded and not late:
+                acc.violation(
+                    {"oracle": "resolved_keys_recorded", "form": "document parsed in two parts"},
+                    {"case": case, "text": [ta, tb], "observed": unrecorded[:3], "expected": "the record of an entry of the first part names the fields the second call resolved"},
+                    size=len(a) + len(b),
+                )
+                continue
             if late:
                 acc.violation(
                     {"oracle": "field_values_after_resolution", "form": "document parsed in two parts", "kind": "reference in the first part to a definition in the second"},
